@@ -235,7 +235,9 @@ def isparent (p1 p2 : Str) : Bool :=
 
 /-- `frombase(path1, path2)`; `ValueError` when `path1` is not a parent. -/
 def frombase (p1 p2 : Str) : Res Str :=
-  if !isparent p1 p2 then .err .ValueError else .ok (p2.drop p1.length)
+  if !isparent p1 p2 then .err .ValueError
+  else if !startsWith p2 p1 then .ok (p2.drop (rstripSlash p1).length)   -- since 696468c
+  else .ok (p2.drop p1.length)
 
 def commonLen : List Str → List Str → Nat
   | a :: as, b :: bs => if a == b then commonLen as bs + 1 else 0
